@@ -206,7 +206,7 @@ Proof. rewrite (fe_q _ _ _ _ _ E). now left. Qed.
 
 Lemma BC_fin : BC s'.
 Proof.
-  destruct HB as (HT & [C1 C2 C3 C4 C5 C6 C7] & _).
+  destruct HB as (HT & [C1 C2 C3 C4 C5 C6 C7 C8] & _).
   destruct (fe_self _ _ _ _ _ E) as (F1 & F2 & F3 & F4 & F5).
   destruct (task_deps_recorded s t ti fe_ti (fe_no _ _ _ _ _ E)) as [Hrec Hdcur].
   constructor.
@@ -231,6 +231,7 @@ Proof.
       * intros d _ _. left. rewrite fe_stored, fe_cAt. split; auto. lia.
       * apply C6; [now apply fe_idle|now rewrite <- (fe_bAt k Hne)].
   - intros k Hc d. rewrite fe_deps. intros Hd. apply fe_curk1. destruct (fe_curk2 k Hc) as [->|H]; [now apply Hdcur|now apply (C7 k H)].
+  - intros k d. rewrite fe_deps. apply C8.
 Qed.
 
 Lemma BS_fin : sreq_scanning s -> BS x s'.
